@@ -46,7 +46,7 @@ type pair struct {
 	mu      sync.Mutex
 	ops     []*opRec
 	tokens  map[string]chan struct{} // per-channel token for the token configuration
-	timeout bool                    // some request timed out (relaxed oracle applies)
+	timeout bool                     // some request timed out (relaxed oracle applies)
 	wg      sync.WaitGroup
 }
 
